@@ -234,7 +234,7 @@ func genDetCase(t *rapid.T) DetCase {
 
 func TestC07_Determinism(t *testing.T) {
 	RunProp(t, Prop[DetCase]{
-		ID: "C07", Name: "determinism", Quick: 240, Thor: 8000,
+		ID: "C07", Name: "determinism", Quick: 400, Thor: 8000,
 		Gen: genDetCase, Run: runDetCase,
 		Rule: "kitchen-sink locking-world histories (all request kinds incl. adversarial ones: unknown validator/token, multi-validator lock batches where one entry fails, dust, several validators leaving, absences, evidence) executed on a primary and 1-2 replicas with separate stores (one optionally on on-disk goleveldb), separate fake execution layers and other node keys; per block a replica either executes plainly, is restarted between FinalizeBlock and Commit and executes the block again, is restarted before the block, or runs under GOMAXPROCS 1 or 4; every execution of the same block must agree on app hash, per-transaction code/codespace/gas wanted/gas used/data, the set of validator updates and the engine call log; non-trivial = the block has a failing transaction, >= 2 validator updates, or a restart/re-execution/GOMAXPROCS point; evaluations count blocks",
 	})
@@ -289,7 +289,7 @@ func runBridgeDet(c BridgeDetCase) Outcome {
 
 func TestC07_Bridge(t *testing.T) {
 	RunProp(t, Prop[BridgeDetCase]{
-		ID: "C07", Name: "bridge", Quick: 240, Thor: 8000,
+		ID: "C07", Name: "bridge", Quick: 400, Thor: 8000,
 		Gen: func(t *rapid.T) BridgeDetCase {
 			c := BridgeDetCase{Source: rapid.SampledFrom([]string{"deposits", "deposits", "withdrawals", "relayer"}).Draw(t, "source")}
 			switch c.Source {
